@@ -10,6 +10,9 @@
  *                  l:<dec>   long, long long, size_t, intmax_t, ptrdiff_t and their unsigned twins (64-bit slot; <dec> signed or unsigned)
  *                  s:<hex>   char * to a NUL-terminated copy of the bytes (s:- empty string, s:null a null pointer)
  *                  w:<hex>   wchar_t * (8 hex digits per element; w:- empty, w:null)
+ *                  S:<hex> / W:<hex>   the same bytes / elements WITHOUT a terminator, the last one flush against a PROT_NONE page
+ *                            (an array that exactly fills its object: only a precision bounds what may be read; one per call;
+ *                            a fault there is reported as fo=arg)
  *                  d:<hex16> double given by its IEEE bit pattern
  *                  D:<hex20> long double given by its x87 80-bit pattern
  *                  p:<hex>   void *
@@ -126,6 +129,7 @@ static void puthex(FILE *o, const char *k, const unsigned char *p, size_t n) {
 static unsigned char *arena;      /* ARENA_PAGES writable pages followed by one PROT_NONE page */
 static char pool[1 << 17];        /* storage of string / wide string arguments */
 static size_t pool_used;
+static unsigned char *argarena;   /* 2 writable pages followed by one PROT_NONE page: the flush (S:/W:) argument */
 static void *palloc(size_t n) { pool_used = (pool_used + 15) & ~(size_t)15; void *p = pool + pool_used; pool_used += n; return pool_used <= sizeof pool ? p : NULL; }
 
 static int parse_args(char *spec, Arg *a) {
@@ -165,6 +169,22 @@ static int parse_args(char *spec, Arg *a) {
                 a[n].g = (long)p;
             }
             break;
+        case 'S': {
+            size_t cnt = !strcmp(v, "-") ? 0 : strlen(v) / 2;
+            unsigned char *p = argarena + 2 * PAGE - cnt;
+            if (cnt > PAGE) return -1;
+            for (size_t i = 0; i < cnt; i++) p[i] = (unsigned char)(hexv(v[2 * i]) * 16 + hexv(v[2 * i + 1]));
+            a[n].kind = 0; a[n].g = (long)p;
+            break;
+        }
+        case 'W': {
+            size_t cnt = !strcmp(v, "-") ? 0 : strlen(v) / 8;
+            if (cnt * sizeof(wchar_t) > PAGE) return -1;
+            wchar_t *p = (wchar_t *)(argarena + 2 * PAGE) - cnt;
+            for (size_t i = 0; i < cnt; i++) { char tmp[9]; memcpy(tmp, v + 8 * i, 8); tmp[8] = 0; p[i] = (wchar_t)strtoul(tmp, NULL, 16); }
+            a[n].kind = 0; a[n].g = (long)p;
+            break;
+        }
         case 'd': { uint64_t b = strtoull(v, NULL, 16); a[n].kind = 1; memcpy(&a[n].d, &b, 8); break; }
         case 'D': {
             if (strlen(v) != 20) return -1;
@@ -189,6 +209,8 @@ int main(int argc, char **argv) {
     int capfd = memfd_create("c11cap", 0), devnull = open("/dev/null", O_WRONLY);
     if (argc > 1) setlocale(LC_ALL, argv[1]);
     arena = mmap(NULL, (ARENA_PAGES + 1) * PAGE, PROT_READ | PROT_WRITE, MAP_PRIVATE | MAP_ANONYMOUS, -1, 0);
+    argarena = mmap(NULL, 3 * PAGE, PROT_READ | PROT_WRITE, MAP_PRIVATE | MAP_ANONYMOUS, -1, 0);
+    if (argarena == MAP_FAILED || mprotect(argarena + 2 * PAGE, PAGE, PROT_NONE)) { fprintf(stderr, "hprintf: setup failed\n"); return 2; }
     if (!ops || !res || capfd < 0 || devnull < 0 || arena == MAP_FAILED || mprotect(arena + ARENA_PAGES * PAGE, PAGE, PROT_NONE)) {
         fprintf(stderr, "hprintf: setup failed\n"); return 2;
     }
@@ -263,6 +285,7 @@ int main(int argc, char **argv) {
         for (unsigned char *p = lo; p < dest; p++) if (*p != 0xC7) { under = 1; break; }
         fprintf(res, "id=%s ret=%d hn=%d hc=%d sig=%d", id, ret, hcount, hcode, sig);
         if (sig && fault_addr >= (uintptr_t)arena && fault_addr < (uintptr_t)arena + (ARENA_PAGES + 1) * PAGE) fprintf(res, " fo=%ld", (long)(fault_addr - (uintptr_t)dest));
+        else if (sig && fault_addr >= (uintptr_t)argarena && fault_addr < (uintptr_t)argarena + 3 * PAGE) fprintf(res, " fo=arg");
         else fprintf(res, " fo=%s", sig ? "far" : "-");
         fprintf(res, " under=%d", under);
         if (isbuf) {
